@@ -42,6 +42,7 @@ type pendingResult struct {
 	res   *spb.AFTResult
 	after *pendingResult // must be emitted after this one (RIB before FIB)
 	sent  bool
+	viol  bool // the protocol-violating result
 }
 
 type stubStream struct {
@@ -73,6 +74,9 @@ type stubServer struct {
 	nextSendFail map[int]error
 	nextRecvFail map[int]error
 	opsSeen      map[uint64]*spb.AFTOperation
+	// response sequence numbers (over all streams): of the violating result, and of the latest
+	// terminal result of a genuine operation; -1 = not emitted yet
+	nEmit, violIdx, lastTermIdx int
 }
 
 func (s *stubServer) Modify(ctx context.Context, opts ...grpc.CallOption) (grpc.BidiStreamingClient[spb.ModifyRequest, spb.ModifyResponse], error) {
@@ -160,6 +164,7 @@ func (s *stubServer) serve(st *stubStream) {
 	var pool []*pendingResult
 	emit := func(r *spb.ModifyResponse) {
 		st.resps = append(st.resps, r)
+		s.nEmit++
 	}
 	flushSome := func(all bool) {
 		for {
@@ -189,6 +194,12 @@ func (s *stubServer) serve(st *stubStream) {
 				ready = append(ready[:k], ready[k+1:]...)
 				p.sent = true
 				resp.Result = append(resp.Result, p.res)
+				switch {
+				case p.viol:
+					s.violIdx = s.nEmit
+				case terminalFor(s.fib, p.res.GetStatus()):
+					s.lastTermIdx = s.nEmit
+				}
 				// RIB-before-FIB may not be batched in the wrong order: FIB becomes ready only in a later round
 			}
 			if len(resp.Result) > 1 {
@@ -256,7 +267,7 @@ func (s *stubServer) serve(st *stubStream) {
 				if !s.fib && stt == spb.AFTResult_FIB_PROGRAMMED {
 					stt = spb.AFTResult_RIB_PROGRAMMED
 				}
-				pool = append(pool, &pendingResult{res: &spb.AFTResult{Id: 999999, Status: stt}})
+				pool = append(pool, &pendingResult{res: &spb.AFTResult{Id: 999999, Status: stt}, viol: true})
 				s.violation = "unknown id answered " + stt.String()
 				sim.Fault("server-unknown-id")
 			case 2:
@@ -268,7 +279,7 @@ func (s *stubServer) serve(st *stubStream) {
 						last = p
 					}
 				}
-				pool = append(pool, &pendingResult{res: proto.Clone(last.res).(*spb.AFTResult), after: last})
+				pool = append(pool, &pendingResult{res: proto.Clone(last.res).(*spb.AFTResult), after: last, viol: true})
 				s.violation = "duplicate terminal result " + last.res.GetStatus().String()
 				sim.Fault("server-duplicate-result")
 			}
@@ -504,7 +515,7 @@ func (cr *cliRun) invariant(when string, final bool) {
 
 func runCli(e *env) {
 	cr := &cliRun{e: e, handed: map[uint64]*spb.AFTOperation{}, nextID: 1, elec: 1}
-	cr.srv = &stubServer{e: e, fib: e.sc.Cfg.FIBAck, maxBatch: 1, terminal: map[uint64]spb.AFTResult_Status{}, ribSent: map[uint64]bool{}, opsSeen: map[uint64]*spb.AFTOperation{}}
+	cr.srv = &stubServer{e: e, fib: e.sc.Cfg.FIBAck, maxBatch: 1, terminal: map[uint64]spb.AFTResult_Status{}, ribSent: map[uint64]bool{}, opsSeen: map[uint64]*spb.AFTOperation{}, violIdx: -1, lastTermIdx: -1}
 	cr.newClient()
 	ctx := context.Background()
 	connect := func() {
@@ -748,6 +759,18 @@ func (cr *cliRun) await(st *Step) {
 		}
 	case cr.srv.violated:
 		e.probe("client: protocol-violating server")
+		if err == nil && cr.srv.violIdx >= 0 && cr.srv.violIdx <= cr.srv.lastTermIdx {
+			// Convergence means every operation has its terminal result, so the client has consumed
+			// the response carrying the last of them - and the offending result travelled in that
+			// response or an earlier one. The error was therefore recorded before success was reported.
+			mode := "RIB-ack mode"
+			if e.sc.Cfg.FIBAck {
+				mode = "FIB-ack mode"
+			}
+			e.probe("client: violation delivered no later than the last terminal result")
+			e.report("C13", "violation-not-surfaced", cr.srv.violation+" in "+mode+" did not surface as an error", fmt.Sprintf("AwaitConverged returned success although the offending result (response #%d) had been consumed together with or before the last terminal result (response #%d)", cr.srv.violIdx, cr.srv.lastTermIdx), true)
+			return
+		}
 		if err == nil {
 			// the offending result may simply not have been delivered yet: let the
 			// client consume everything the server has sent, then ask again
